@@ -148,6 +148,10 @@ def instantiated (s : St) (i : IId) (x : Inst) (n : Name) (p : PId) : Except Res
       let x' := { x with iparams := aset x.iparams n ip }
       .ok (setInst { s with heap := s.heap ++ [q] } i x', x', ip)
 
+/-- src: Parameter.__set__: `_old = obj._param__private.values.get(self.name, self.default)` -/
+def guardOld (x : Inst) (n : Name) (q : Param) : Obj :=
+  match aget x.values n with | some o => o | none => q.default
+
 /-- src: Parameter.__set__ on an *initialised* instance, from the guard on; `ip` is the Parameter
 object the call was delegated to (`instance_descriptor`) -/
 def guardedStore (s : St) (i : IId) (x : Inst) (n : Name) (ip : PId) (v : Obj) : St × Res :=
@@ -157,9 +161,8 @@ def guardedStore (s : St) (i : IId) (x : Inst) (n : Name) (ip : PId) (v : Obj) :
     if q.constant || q.readonly then
       if q.readonly then (s, .typeError)
       else
-        -- `_old = values.get(name, self.default)`; `if val is not _old: raise TypeError`
-        let old := match aget x.values n with | some o => o | none => q.default
-        if v = old then (s, .ok) else (s, .typeError)
+        -- `if val is not _old: raise TypeError`
+        if v = guardOld x n q then (s, .ok) else (s, .typeError)
     else (setInst s i { x with values := aset x.values n v }, .ok)
 
 /-- `setattr(obj, n, v)` after construction -/
@@ -270,14 +273,20 @@ def blockEntry (s : St) (x : Inst) : St × List (Name × PId) :=
   let upd := union.filter fun np => match s.heap[np.2]? with | some q => q.constant | none => false
   ({ s with heap := upd.foldl (fun h np => setConst h np.2 false) s.heap }, upd)
 
+def iparamsOf (s : St) (i : IId) : List (Name × PId) :=
+  match s.insts[i]? with | some x => x.iparams | none => []
+
+/-- src: edit_constant, one round of the `finally` loop: `pobj.constant = True`;
+`inst_pobj = params.get(pname)`; `if inst_pobj is not None and inst_pobj is not pobj: inst_pobj.constant = True` -/
+def exitStep (ipar : List (Name × PId)) (h : List Param) (np : Name × PId) : List Param :=
+  let h1 := setConst h np.2 true
+  match aget ipar np.1 with
+  | some ip => if ip ≠ np.2 then setConst h1 ip true else h1
+  | none => h1
+
 /-- src: edit_constant, the `finally` clause -/
 def blockExit (s : St) (i : IId) (upd : List (Name × PId)) : St :=
-  let ipar := match s.insts[i]? with | some x => x.iparams | none => []
-  { s with heap := upd.foldl (fun h np =>
-      let h1 := setConst h np.2 true
-      match aget ipar np.1 with
-      | some ip => if ip ≠ np.2 then setConst h1 ip true else h1
-      | none => h1) s.heap }
+  { s with heap := upd.foldl (exitStep (iparamsOf s i)) s.heap }
 
 /-! ### One statement -/
 
@@ -359,6 +368,27 @@ end
 
 /-- a top-level history: every step is wrapped in `try/except`, so execution goes on -/
 def run (s : St) (ops : List Op) : St := ops.foldl (fun s op => (step s op).1) s
+
+/-! ### Class creation -/
+
+/-- one `class K(bases): n = param.Parameter(default=…, constant=…, readonly=…) …` statement.
+Parameter objects are numbered per class: the declared ones in declaration order
+(`Parameter.__init__`: `readonly ⇒ constant`), then the class's own copy of `name`, created by the
+metaclass when it assigns `cls.name = <class name>` (constant, not read-only; its default is the
+class-name object `npool + c`). -/
+def declare (npool : Nat) (s : St) (d : List CId × List (Name × Bool × Bool × Obj)) : St :=
+  let c := s.classes.length
+  let (dict, heap) := d.2.foldl (fun (acc : List (Name × PId) × List Param) e =>
+      (aset acc.1 e.1 acc.2.length,
+       acc.2 ++ [{ constant := e.2.1 || e.2.2.1, readonly := e.2.2.1, default := e.2.2.2 }])) ([], s.heap)
+  { s with heap := heap ++ [{ constant := true, readonly := false, default := npool + c }],
+           classes := s.classes ++ [{ mro := d.1, dict := aset dict "name" heap.length, nameObj := npool + c }] }
+
+/-- the state after all class statements of a history; value objects `0 … npool-1` are the pool,
+`npool + c` the class names, the following ones generated instance names -/
+def initState (npool : Nat) (decls : List (List CId × List (Name × Bool × Bool × Obj))) : St :=
+  { decls.foldl (declare npool) { heap := [], classes := [], insts := [], nextObj := 0 } with
+    nextObj := npool + decls.length }
 
 /-! ### Flags as seen from an instance / a class -/
 
